@@ -582,6 +582,9 @@ def replay_inplace_vector(case, model, rec):
     elif kind == "Array":
         w = osy.Array(values=np.array([10.0, 20.0, 30.0]), unit="cm")
         pw = [phys(w)] * n
+    elif kind == "OwnComponent":
+        w = v.x
+        pw = [before[0]] * n
     else:
         w = 2.0
         pw = [phys(w)] * n
@@ -807,3 +810,120 @@ def replay_cross(case, model, rec):
         if not ok:
             return {"reproduced": True, "observed": "%s: %s" % (c, detail)}
     return {"reproduced": False}
+
+
+# --------------------------------------------------------------------------------------
+# bounded native sweeps for C02 / C07 (pint as independent oracle)
+# --------------------------------------------------------------------------------------
+UNIT_PAIRS = [("m", "m"), ("m", "cm"), ("km", "au"), ("g", "M_sun"), ("s", "hour"), ("cm/s", "km/s"),
+              ("g/cm**3", "kg/m**3"), ("erg", "J"), ("dimensionless", "dimensionless"), ("cm/m", "dimensionless"),
+              ("m", "s"), ("m", "m**2"), ("cm**3", "1/cm"), ("cm/s", "cm/s**2"), ("erg", "erg/s"), ("g", "K")]
+SHAPES_NATIVE = [((), ()), ((4,), (4,)), ((2, 3), (2, 3)), ((2, 3), (3,)), ((4,), ()), ((2, 1), (1, 3))]
+
+
+def _vals(np, rng, shape, dtype):
+    v = rng.integers(1, 40, size=shape)
+    if "float" in dtype:
+        v = v + rng.integers(0, 4, size=shape) * 0.25
+    return np.asarray(v).astype(dtype)
+
+
+def sweep_c02(tier, seed):
+    np = _np()
+    osy = _os()
+    rng = np.random.default_rng(seed)
+    viol, cases, distinct = [], 0, set()
+    reps = 1 if tier == "quick" else 8
+    for _ in range(reps):
+        for op in BINOPS:
+            for kind in ("Array", "number_float", "number_int", "ndarray", "Quantity", "QuantityArr"):
+                if op in ("__rmul__", "__rtruediv__") and kind not in ("number_float", "number_int"):
+                    continue
+                for dtype in ("float64", "float32", "int64", "int32"):
+                    for (ua, ub) in UNIT_PAIRS:
+                        sa, sb = SHAPES_NATIVE[int(rng.integers(0, len(SHAPES_NATIVE)))]
+                        if kind in ("number_float", "number_int", "Quantity"):
+                            sb = ()
+                        a = osy.Array(values=_vals(np, rng, sa, dtype), unit=ua)
+                        if kind in ("number_float", "number_int", "ndarray"):
+                            if op in ("__add__", "__sub__") and ua != "dimensionless":
+                                ub = "dimensionless"
+                        b = build_operand(kind, _vals(np, rng, sb, dtype), ub)
+                        cases += 1
+                        distinct.add((op, kind, dtype, ua, ub, sa, sb))
+                        try:
+                            ok, detail = operator_oracle(op, a, b)
+                        except Exception as e:
+                            ok, detail = False, "exception %r" % (e,)
+                        if not ok:
+                            viol.append({"name": "C02.native.op[%s,%s]" % (op, kind),
+                                         "input": [op, kind, dtype, ua, ub, list(sa), list(sb)], "observed": detail})
+    for dtype in ("float64", "float32", "int64", "int32"):
+        for k in (2, 3, 0.5, -1, 0, 1.5):
+            if k in (-1, 0.5, 1.5) and "int" in dtype:
+                continue
+            a = osy.Array(values=_vals(np, rng, (4,), dtype), unit="m")
+            cases += 1
+            distinct.add(("pow", dtype, k))
+            ok, detail = compare(a ** k, phys(a) ** k)
+            if not ok:
+                viol.append({"name": "C02.native.pow", "input": [dtype, k], "observed": detail})
+        a = osy.Array(values=_vals(np, rng, (4,), dtype), unit="m")
+        ok, detail = compare(-a, -phys(a))
+        cases += 1
+        if not ok:
+            viol.append({"name": "C02.native.neg", "input": [dtype], "observed": detail})
+    first = {}
+    for v in viol:
+        first.setdefault(v["name"], v)
+    return {"status": "violation" if viol else "ok", "cases": cases, "distinct": len(distinct), "violations": list(first.values()),
+            "samples": [list(map(str, s)) for s in list(distinct)[:3]], "kind": "bounded-native"}
+
+
+def sweep_c07(tier, seed):
+    np = _np()
+    osy = _os()
+    rng = np.random.default_rng(seed)
+    viol, cases, distinct = [], 0, set()
+    reps = 1 if tier == "quick" else 8
+    cmpops = [k for k in CMPOPS if k.startswith("__")]
+    for _ in range(reps):
+        for op in cmpops:
+            for kind in ("Array", "number_float", "ndarray", "Quantity", "QuantityArr"):
+                for dtype in ("float64", "float32", "int32"):
+                    for (ua, ub) in UNIT_PAIRS:
+                        sa, sb = SHAPES_NATIVE[int(rng.integers(0, len(SHAPES_NATIVE)))]
+                        if kind in ("number_float", "Quantity"):
+                            sb = ()
+                        if kind in ("number_float", "ndarray") and ua != "dimensionless":
+                            ub = "dimensionless"
+                        a = osy.Array(values=_vals(np, rng, sa, dtype), unit=ua)
+                        b = build_operand(kind, _vals(np, rng, sb, dtype), ub)
+                        cases += 1
+                        distinct.add((op, kind, dtype, ua, ub, sa, sb))
+                        try:
+                            ok, detail = compare_oracle(op, a, b)
+                        except Exception as e:
+                            ok, detail = False, "exception %r" % (e,)
+                        if not ok:
+                            viol.append({"name": "C07.native.cmp[%s,%s]" % (op, kind),
+                                         "input": [op, kind, dtype, ua, ub, list(sa), list(sb)], "observed": detail})
+    # values that differ only after conversion
+    a = osy.Array(values=np.array([1.0, 1.0, 0.99]), unit="m")
+    for b in (osy.Array(values=np.array([99.0, 100.0, 99.0]), unit="cm"), 99.0 * osy.units("cm"),
+              osy.Array(values=99.0, unit="cm")):
+        for op in cmpops:
+            cases += 1
+            ok, detail = compare_oracle(op, a, b)
+            if not ok:
+                viol.append({"name": "C07.native.conversion[%s]" % op, "input": "1 m vs 99 cm (%s)" % type(b).__name__, "observed": detail})
+    for op in ("__and__", "__or__", "__xor__", "__invert__"):
+        cases += 1
+        r = replay_logic(op, {}, {})
+        if r["reproduced"]:
+            viol.append({"name": "C07.native.logic[%s]" % op, "input": op, "observed": r["observed"]})
+    first = {}
+    for v in viol:
+        first.setdefault(v["name"], v)
+    return {"status": "violation" if viol else "ok", "cases": cases, "distinct": len(distinct), "violations": list(first.values()),
+            "samples": [list(map(str, s)) for s in list(distinct)[:3]], "kind": "bounded-native"}
